@@ -9,7 +9,7 @@ ASSUMPTIONS = ["formula vocabulary of Exec/Model.v (integers/None, calls, refere
 
 def run(tier, seed, rng):
     return E.run_exec_property("C17", tier, rng, 150, 3000, {'p_fin_world': 0.4, 'p_shared_exc': 0.25, 'p_raise': 0.2, 'p_try': 0.3, 'p_uncached': 0.3, 'p_none': 0.08, 'maxdepth': (5, 30), 'recursion': 0.5}, {'eval': 1}, (8, 30), ORACLES,
-        'worlds with many raising expressions, try/except handlers (handled failures before unhandled ones), try/finally clean-up expressions that evaluate cells while a failure passes (40% of the worlds, (P)-only), in 25% of the worlds every KeyError / ZeroDivisionError is ONE shared exception object, uncached cells, None results, recursion' + "; non-trivial = a traceback of depth >= 2; distinct by JSON of the case",
+        'worlds with many raising expressions, try/except handlers (handled failures before unhandled ones), try/finally clean-up expressions that evaluate cells while a failure passes (40% of the worlds; SFin of Exec/Model.v, tied), in 25% of the worlds every KeyError / ZeroDivisionError is ONE shared exception object, uncached cells, None results, recursion' + "; non-trivial = a traceback of depth >= 2; distinct by JSON of the case",
         lambda c, r: any(ob['tb'] and len(ob['tb'])>=2 for ob in r['obs']), diff=None)
 
 
